@@ -457,3 +457,47 @@ def judge_cmdline(case, o):
     elif e["lineno"] not in case["cmd_lines"] and case.get("exc") in ("InvalidThresholds", "EmptyInputs", "RecursiveModelStructure", "MixedArrayShapes"):
         bad.append(("lineno", "%s is raised for the command as a whole but carries line %r (the command starts on line %s)" % (e["cls"], e["lineno"], case["cmd_lines"])))
     return bad
+
+
+# --------------------------------------------------------------------------- C14: cyclic models over the real libraries
+def cyclic_model_cases(tier="quick"):
+    """reference cycles built from real commands (Copy, Sum, AMinusB, FuzzyNot ...), with and without acyclic sources, tails and
+    consumers whose parameters restrict fuzziness; every textual order (quick: up to 6 per graph)"""
+    import itertools
+
+    R = "R = EEMSRead(InFileName = input.csv, InFieldName = a)"
+    graphs = {
+        "copy-self": ["A = Copy(InFieldName = A)"],
+        "copy-2cycle": ["A = Copy(InFieldName = B)", "B = Copy(InFieldName = A)"],
+        "copy-3cycle": ["A = Copy(InFieldName = B)", "B = Copy(InFieldName = C)", "C = Copy(InFieldName = A)"],
+        "copy-cycle+typed-consumer": ["A = Copy(InFieldName = B)", "B = Copy(InFieldName = A)", "S = Sum(InFieldNames = [A, A])"],
+        "copy-cycle+nonfuzzy-consumer": ["A = Copy(InFieldName = B)", "B = Copy(InFieldName = A)", "D = AMinusB(A = A, B = B)"],
+        "copy-self+cvt": ["A = Copy(InFieldName = A)", "F = CvtToFuzzy(InFieldName = A)"],
+        "sum-list-cycle": [R, "A = Sum(InFieldNames = [R, B])", "B = Copy(InFieldName = A)"],
+        "diff-cycle-with-source": [R, "D = AMinusB(A = R, B = K)", "K = Copy(InFieldName = D)"],
+        "cycle-with-tail-and-writer": [R, "A = Copy(InFieldName = B)", "B = AMinusB(A = A, B = R)", "W = EEMSWrite(OutFileName = out.csv, OutFieldNames = [B])"],
+        "cycle-apart-from-valid-chain": [R, "S = Copy(InFieldName = R)", "A = Copy(InFieldName = B)", "B = Copy(InFieldName = A)"],
+        "fuzzy-cycle": [R, "F = CvtToFuzzy(InFieldName = R)", "X = FuzzyOr(InFieldNames = [F, Y])", "Y = FuzzyNot(InFieldName = X)"],
+        "printvars-cycle": ["P = PrintVars(InFieldNames = [Q])", "Q = PrintVars(InFieldNames = [P])"],
+    }
+    cases = []
+    for name, lines in graphs.items():
+        perms = list(itertools.permutations(range(len(lines))))
+        if tier == "quick" and len(perms) > 6:
+            perms = perms[:2] + perms[len(perms) // 2:len(perms) // 2 + 2] + perms[-2:]
+        for p in perms:
+            cases.append({"files": {"input.csv": CSV}, "source": "\n".join(lines[i] for i in p) + "\n", "label": "cyclic:" + name})
+    return cases
+
+
+def judge_cyclic(case, o):
+    if "harness_error" in o:
+        return [("harness-error", o["harness_error"][-300:])]
+    e = o.get("exc")
+    if o["stage"] == "ok":
+        return [("all-finished", "a cyclic model ran to a normal end (executed %s)" % o.get("executed"))]
+    if o["stage"] == "load":
+        return [("reentrancy", "a cyclic model was rejected at load time with %s" % e["cls"])]
+    if e["cls"] != "RecursiveModelStructure":
+        return [("reentrancy", "a cyclic model was rejected with %s instead of RecursiveModelStructure: %s" % (e["cls"], e["msg"][:120]))]
+    return []
